@@ -759,7 +759,16 @@ def _impl_c15(case):
     cmap2 = getattr(machine2, 'model_context_map', {})
     all1 = set(id(c) for c in mctx1) | set(id(c) for l in cmap1.values() for c in l)
     all2 = set(id(c) for c in mctx2) | set(id(c) for l in cmap2.values() for c in l)
-    disjoint = (not (set(id(x) for x in om) & set(id(x) for x in nm))) and not (all1 & all2) and entry_ok
+    # per-model queues (async classes, queued='model'): one queue OBJECT per model, none shared between the models
+    # of the copy or with the original (a shared deque makes an event on one model wait behind another model's)
+    q1 = getattr(machine, '_transition_queue_dict', None)
+    q2 = getattr(machine2, '_transition_queue_dict', None)
+    queues_ok = True
+    if type(q1) is dict and type(q2) is dict:
+        ids2 = [id(q) for q in q2.values()]
+        queues_ok = len(set(ids2)) == len(ids2) and not (set(ids2) & set(id(q) for q in q1.values()))
+    disjoint = ((not (set(id(x) for x in om) & set(id(x) for x in nm))) and not (all1 & all2) and entry_ok
+                and queues_ok)
     graphs1 = getattr(machine, 'model_graphs', {})
     graphs2 = getattr(machine2, 'model_graphs', {})
     graph_ok = []
@@ -924,7 +933,7 @@ def failing_clauses(case, obs):
     if [t for [t] in rekey[0]] != live:
         out.append('models of the copy (tags in order)')
     if not rekey[1]:
-        out.append('identities of the copy are disjoint from the original')
+        out.append('identities of the copy (models, contexts, per-model queues) are fresh, pairwise distinct and disjoint from the original')
     if locked:
         if rekey[5] != want_keys:
             out.append('model_context_map of the copy keyed by the identities of its models')
